@@ -45,10 +45,11 @@ def _record(ctx, exe, exe_omp):
     jobs = [("hist", exe, ["hist", os.path.join(w, "hist.ndjson"), 24 if q else 150, 36 if q else 50, 0 if q else 1, os.path.join(w, "files")], {}),
             ("allbatch", exe, ["allbatch", os.path.join(w, "allbatch.ndjson"), 3 if q else 8, 18 if q else 40], {}),
             ("long", exe, ["long", os.path.join(w, "long.ndjson"), 1 if q else 3, 2000 if q else 10000], {}),
+            ("reuse", exe, ["reuse", os.path.join(w, "reuse.ndjson"), 16 if q else 120, 20 if q else 40, os.path.join(w, "files")], {}),
             ("ecat", exe, ["ecat", os.path.join(w, "ecat.ndjson"), 12 if q else 120, 40 if q else 80], {}),
             ("gradx", exe, ["gradx", os.path.join(w, "gradx.ndjson"), 16 if q else 200, 0 if q else 1, cache], {}),
             ("gradx-omp", exe_omp, ["gradx", os.path.join(w, "gradx-omp.ndjson"), 16 if q else 150, 0 if q else 1, cache], omp),
-            ("grad", exe, ["grad", os.path.join(w, "grad.ndjson"), 6 if q else 60, 0 if q else 1, cache], {}),
+            ("grad", exe, ["grad", os.path.join(w, "grad.ndjson"), 12 if q else 80, 0 if q else 1, cache], {}),
             ("grad-omp", exe_omp, ["grad", os.path.join(w, "grad-omp.ndjson"), 10 if q else 150, 0 if q else 1, cache], omp)]
     out = []
     for name, x, args, e in jobs:
@@ -120,6 +121,7 @@ def run(ctx):
     seen_events = set()
     nexec = {}
     cover = {}
+    changed_kinds = set()
     for (name, _), (p, ok, r, at) in zip(chunks, res):
         recs = lib.read_ndjson(p)
         ctx.traces += 1
@@ -145,6 +147,8 @@ def run(ctx):
                 sig = (e, rec["N"], rec["R"], rec["span"], rec["mash"], rec["tofMash"], rec["maxTang"] - rec["minTang"], rec["maxSeg"],
                        rec.get("segIM"), rec.get("tofIM"), rec.get("storeP"), rec.get("storeD"), rec.get("nStore", 0) > 0,
                        len(rec.get("frames", [])), rec.get("numSubsets"), rec.get("hasAdd"), rec.get("cache"), rec.get("disk"))
+            if e in STARTS and rec.get("reuse"):
+                changed_kinds.add((e, rec.get("changed")))
             if i in badlines:
                 dead = True
             if dead or cfg is None:
@@ -177,10 +181,18 @@ def run(ctx):
         missing = [e for e in HIST_EVENTS + ["Grad", "Sens", "Hess", "W"] if e not in seen_events]
         if missing and not ctx.violations:
             raise lib.ModelFailure("vacuity guard: no validated event of kind %s in the recorded traces" % missing)
+        # (+ re-used LmToProjData / list-mode objective objects, sub-gradients with >= 3 subsets and real symmetries,
+        #  "maximum segment number to process" 0 and max + 1)
         # what TLC saw in the ACCEPTED executions: later passes (rewinds) over a frame without time mark, time marks exactly
         # on a frame end, empty frames, gradients over several event batches (re-read and cached on disk), TOF ECAT words
         ctx.extra["cover"] = cover
-        idle = [k for k in ("emptyFrameRewind", "boundaryMark", "emptyOut", "multiBatchMem", "multiBatchDisk", "ecatTofWords") if cover.get(k, 0) == 0]
+        ctx.extra["reuse_changed"] = sorted("%s:%s" % k for k in changed_kinds)
+        want = {("Config", k) for k in ("storeD", "storeP", "nStore", "frames", "template", "input", "segIM", "tofIM", "prefix")} | \
+               {("GConfig", k) for k in ("numSubsets", "maxSegProc", "frame", "cache")}
+        if want - changed_kinds and not ctx.violations:
+            raise lib.ModelFailure("vacuity guard: no re-use history changed %s" % sorted(want - changed_kinds))
+        idle = [k for k in ("emptyFrameRewind", "boundaryMark", "emptyOut", "multiBatchMem", "multiBatchDisk", "ecatTofWords",
+                             "reuse", "reuseObj", "subsets3", "segZero", "segRefused") if cover.get(k, 0) == 0]
         if idle and not ctx.violations:
             raise lib.ModelFailure("vacuity guard: no accepted recorded execution exercised %s" % idle)
         ctx.extra["executions"] = nexec
